@@ -25,10 +25,13 @@ Line == Trace[l]
 RangeOf(s) == {s[i] : i \in DOMAIN s}
 
 FilesOf(tree) == LET L == RangeOf(tree.lens) IN
-    [name \in {FName(n) : n \in L} \cup {IndexFile} |-> IF name = IndexFile THEN tree.idxlen ELSE CHOOSE n \in L : FName(n) = name]
+    [name \in {FName(n) : n \in L} \cup {IndexFile, AIndexFile} |->
+        IF name = IndexFile THEN tree.idxlen ELSE IF name = AIndexFile THEN tree.alen ELSE CHOOSE n \in L : FName(n) = name]
+\* (the tree.many empty files m/g000... are not listed: no case requests them and they have no bytes; the files OUT and
+\*  OUTIDX (index.html in the PARENT of the root) are outside the root and therefore never in FilesOf)
 
 WellFormedCase(c) ==
-    /\ c.route \in {"fs", "fsrw", "file"} /\ c.via \in {"read", "writeto"}
+    /\ c.route \in {"fs", "fsrw", "file", "vhost"} /\ c.via \in {"read", "writeto"}
     /\ c.route = "file" => c.abr /\ c.compress            \* ServeFile's rootFS has AcceptByteRange and Compress
     /\ Len(c.reqs) >= 1
     /\ \A i \in DOMAIN c.reqs :
@@ -37,7 +40,8 @@ WellFormedCase(c) ==
          /\ q.tgt \notin {"none", "dir", "any"} => q.tgt \in DOMAIN FilesOf(c.tree) /\ q.path = "/" \o q.tgt   \* plain path of that file
          /\ q.tgt = "none" => q.path \in {"/nofile", "/d/nofile", "/f9", "/f3x", "/index.html"} /\ "f9" \notin DOMAIN FilesOf(c.tree)
                                                                                               /\ "f3x" \notin DOMAIN FilesOf(c.tree)
-         /\ q.tgt = "dir" => q.path \in {"/", "/d", "/d/", "/e", "/e/"}
+         /\ q.tgt = "dir" => q.path \in {"/", "/d", "/d/", "/e", "/e/", "/m", "/m/", "/a", "/a/"}
+         /\ c.route = "vhost" => q.tgt = "any"           \* <root>/<Host><path>: only "nothing from outside the root" is judged
 
 \* the variables of the design (FileServe part 2) play no role in trace validation: frozen
 TraceInit == /\ l = 1 /\ bad = << >> /\ cs = NoCase /\ k = 1 /\ hist = << >>
@@ -54,14 +58,14 @@ TraceServed == /\ l <= Len(Trace) /\ Line.ev = "Served" /\ cs.id # 0
                /\ k <= Len(cs.reqs) /\ Line.i = k
                /\ LET q == cs.reqs[k]
                       o == Obs(Line) IN
-                  /\ Line.path = q.path /\ Line.method = q.method /\ Line.rstr = q.range.str /\ Line.ae = q.ae   \* the driver sent what the case says
+                  /\ Line.path = q.path /\ Line.method = q.method /\ Line.rstr = q.range.str /\ Line.ae = q.ae /\ Line.host = q.host   \* the driver sent what the case says
                   /\ Line.rerr = ""                                                                \* reading the body stream did not fail
                   /\ Line.blen = BodyLen(Line.runs)
                   /\ Line.enc = "" => Line.wlen = Line.blen
                   /\ Oblig(FilesOf(cs.tree), cs.abr, cs.compress, q.ae, q.tgt, q.method, q.range, o)
                   /\ \A j \in DOMAIN hist : hist[j].path = q.path /\ hist[j].rstr = q.range.str /\ hist[j].rkind = q.range.kind
-                                              /\ hist[j].ae = q.ae => SameAnswer(hist[j].method, hist[j].o, q.method, o)
-                  /\ hist' = Append(hist, [path |-> q.path, rstr |-> q.range.str, rkind |-> q.range.kind, ae |-> q.ae,
+                                              /\ hist[j].ae = q.ae /\ hist[j].host = q.host => SameAnswer(hist[j].method, hist[j].o, q.method, o)
+                  /\ hist' = Append(hist, [path |-> q.path, rstr |-> q.range.str, rkind |-> q.range.kind, ae |-> q.ae, host |-> q.host,
                                            method |-> q.method, o |-> o])
                /\ k' = k + 1 /\ l' = l + 1 /\ UNCHANGED <<bad, cs>>
 
